@@ -21,7 +21,7 @@ RULE = ("every class of the instruction map except FENCE (53 mnemonics, round-ro
         "whole field incl. boundaries (I/S 12-bit signed, shift 0..31, B 13-bit even, U 20-bit signed, J 21-bit even, csr "
         "0..4095, uimm 0..31), placed at address 4*(pad+i) behind `pad` nop lines (pad up to 4000): load_program(pad + repr) "
         "must store an object of the same class with the same rd/rs1/rs2/imm/csr/uimm (J: imm and abs_addr) at that address; "
-        "listing(load(listing(P))) == listing(P) for generated programs. non-trivial = negative or boundary immediate, or a "
+        "listing(load(listing(P))) == listing(P) for generated programs; the listing stays the same while the program is executed (both modes, 30 steps) and follows single write_instruction() calls made after it was shown. non-trivial = negative or boundary immediate, or a "
         "pc-relative form (JAL) at an address != 0; distinct = hash(instruction, address)")
 ASSUMPTIONS = ["B-type numeric operands are pc-relative, JAL numeric operands absolute, as the help table documents"]
 
@@ -109,10 +109,46 @@ def check_listing(case, stats):
     if f1 != f2:
         d = [(i, a, b) for i, (a, b) in enumerate(zip(f1, f2)) if a != b][:3]
         raise Violation("listing-reassembles-to-other-fields", case, f"(index, loaded program, re-assembled listing) {d}\n{text}")
+    _listing_under_execution(case, [(e[0], e[1]) for e in l1], src if case.get("ast") is not None else None)
     if case.get("ast") is not None:
         stats.count(case, len(f1) >= 3, {"listing-from-source"}, sample_tag="listing-from-source")
         return
+    # the listing describes what is STORED: after it has been shown once, other instructions are put into the memory one at
+    # a time (write_instruction, as the repository's tests do); every row must follow
+    im = sim.state.instruction_memory
+    prog2 = case["prog"][1:] + case["prog"][:1]
+    for i, ins in enumerate(prog2):
+        o = mk(ins, 4 * i)
+        im.write_instruction(4 * i, o)
+        shown = dict((e[0][0], e[1]) for e in sim.get_instruction_memory_entries())
+        if shown.get(4 * i) != repr(o):
+            raise Violation("listing-stale-after-write", case, f"address {4 * i:#x} holds {repr(o)!r}, the listing shows {shown.get(4 * i)!r}")
     stats.count(case, len(case["prog"]) >= 3, {"listing"}, sample_tag="listing")
+
+
+def _listing_under_execution(case, l0, src):
+    """The printed text of an instruction does not depend on whether, or in which pipeline mode, it has been executed: while
+    the program runs (both modes, bounded), the listing stays what it was after loading - and so keeps re-assembling to it."""
+    from architecture_simulator.simulation.runtime_errors import InstructionExecutionException
+    for mode in ("single", "five"):
+        sim = rvdrive.new_sim(mode, True, None, None)
+        if src is not None:
+            sim.load_program(src)
+        else:
+            sim.state.instruction_memory.write_instructions([mk(ins, 4 * i) for i, ins in enumerate(case["prog"])])
+        for n in range(1, 31):
+            if sim.is_done():
+                break
+            try:
+                sim.step()
+            except InstructionExecutionException:
+                break
+            except Exception:
+                break    # CSR / ebreak objects are not executable: execution is not this property's subject
+            now = [(e[0], e[1]) for e in sim.get_instruction_memory_entries()]
+            if now != l0:
+                d = [(a, b) for a, b in zip(l0, now) if a != b][:3]
+                raise Violation("listing-changes-during-execution", case, f"{mode} mode, after step {n}: (loaded, now) {d}")
 
 
 # ------------------------------------------------------------------------------------------------------------
